@@ -707,6 +707,7 @@ enum LabelledStructState {
     Init,
     Header,
     NoHeader,
+    NoHeaderSeenExtant,
     AttrBetween,
     AttrItem,
     BodyBetween,
@@ -719,6 +720,7 @@ enum OrdinalStructState {
     Init,
     Header,
     NoHeader,
+    NoHeaderSeenExtant,
     AttrBetween,
     AttrItem,
     BodyBetween,
@@ -985,13 +987,25 @@ impl<T, Flds> Recognizer for LabelledStructRecognizer<T, Flds> {
                 }
             }
             LabelledStructState::NoHeader => match input {
-                ReadEvent::Extant => None,
+                ReadEvent::Extant => {
+                    // The body of the tag attribute holds at most one (empty) item.
+                    *state = LabelledStructState::NoHeaderSeenExtant;
+                    None
+                }
                 ReadEvent::EndAttribute => {
                     *state = LabelledStructState::AttrBetween;
                     None
                 }
                 ow => Some(Err(ow.kind_error(ExpectedEvent::EndOfAttribute))),
             },
+            LabelledStructState::NoHeaderSeenExtant => {
+                if matches!(&input, ReadEvent::EndAttribute) {
+                    *state = LabelledStructState::AttrBetween;
+                    None
+                } else {
+                    Some(Err(input.kind_error(ExpectedEvent::EndOfAttribute)))
+                }
+            }
             LabelledStructState::AttrBetween => match input {
                 ReadEvent::StartBody => {
                     *state = LabelledStructState::BodyBetween;
@@ -1157,13 +1171,25 @@ impl<T, Flds> Recognizer for OrdinalStructRecognizer<T, Flds> {
                 }
             }
             OrdinalStructState::NoHeader => match input {
-                ReadEvent::Extant => None,
+                ReadEvent::Extant => {
+                    // The body of the tag attribute holds at most one (empty) item.
+                    *state = OrdinalStructState::NoHeaderSeenExtant;
+                    None
+                }
                 ReadEvent::EndAttribute => {
                     *state = OrdinalStructState::AttrBetween;
                     None
                 }
                 ow => Some(Err(ow.kind_error(ExpectedEvent::EndOfAttribute))),
             },
+            OrdinalStructState::NoHeaderSeenExtant => {
+                if matches!(&input, ReadEvent::EndAttribute) {
+                    *state = OrdinalStructState::AttrBetween;
+                    None
+                } else {
+                    Some(Err(input.kind_error(ExpectedEvent::EndOfAttribute)))
+                }
+            }
             OrdinalStructState::AttrBetween => match &input {
                 ReadEvent::StartBody => {
                     *state = OrdinalStructState::BodyBetween;
@@ -1441,6 +1467,7 @@ enum DelegateStructState {
     Init,
     Header,
     NoHeader,
+    NoHeaderSeenExtant,
     AttrBetween,
     AttrItem,
     Delegated,
@@ -1586,13 +1613,25 @@ impl<T, Flds> Recognizer for DelegateStructRecognizer<T, Flds> {
                 }
             }
             DelegateStructState::NoHeader => match input {
-                ReadEvent::Extant => None,
+                ReadEvent::Extant => {
+                    // The body of the tag attribute holds at most one (empty) item.
+                    *state = DelegateStructState::NoHeaderSeenExtant;
+                    None
+                }
                 ReadEvent::EndAttribute => {
                     *state = DelegateStructState::AttrBetween;
                     None
                 }
                 ow => Some(Err(ow.kind_error(ExpectedEvent::EndOfAttribute))),
             },
+            DelegateStructState::NoHeaderSeenExtant => {
+                if matches!(&input, ReadEvent::EndAttribute) {
+                    *state = DelegateStructState::AttrBetween;
+                    None
+                } else {
+                    Some(Err(input.kind_error(ExpectedEvent::EndOfAttribute)))
+                }
+            }
             DelegateStructState::AttrBetween => match input {
                 ReadEvent::StartBody => {
                     if let Some(i) = select_index(OrdinalFieldKey::FirstItem) {
